@@ -328,3 +328,125 @@ def compare(sim, chunks):
             diffs.append(dict(at=i, kind='state-differs', lines=d[:6], classes=kinds, op=op[:400]))
             break   # after the first divergence the two sides stay apart
     return diffs
+
+
+# ---------------------------------------------------------------------------------------------------------------
+# scheduled (non-adaptive) scenarios for paired runs (C05): the clients' whole behaviour and the clock are fixed in
+# advance; device A (d1, the coprocess, nodes u*) answers what is written to it from its own PRNG; device B (d0, tcp,
+# nodes t*) is either healthy or sick.  Nothing B does can reach A or an A-only client unless the daemon lets it.
+
+def make_schedule(seed, N):
+    R = random.Random(seed)
+    now = 0
+    sched = []
+    nacc = 0
+    clients = []          # per client: dict(kind, lines=[(pass offset, bytes)], accept pass)
+    for it in range(1, N):
+        now += R.choice([0, 1000, 1000, 50000, 400000, 1000000, 2500000] if R.random() < 0.3 else [0, 1000, 1000, 50000, 400000])
+        acc = 0
+        if nacc < 8 and R.random() < 0.06:
+            acc = 1
+            kind = R.choice(['A', 'A', 'mixed', 'B'])
+            lines = []
+            off = R.randint(1, 5)
+            if kind == 'mixed':
+                lines.append((off, ("%s %s\n" % (R.choice(COMS), R.choice(["t[0-7],u[0-3]", "t1,u1", "u[0-3],t[2-4]", "u2,t5"]))).encode()))
+            else:
+                if R.random() < 0.3:
+                    lines.append((off, R.choice([b"telemetry\n", b"exprange\n"]))); off += R.randint(1, 4)
+                for _ in range(R.randint(1, 6)):
+                    tg = R.choice(["u%d" % R.randint(0, 3), "u[0-3]", "u[%d-%d]" % (R.randint(0, 1), R.randint(2, 3)), "u1,u3"]) if kind == 'A' else \
+                        R.choice(["t%d" % R.randint(0, 7), "t[0-7]", "t[2-4]"])
+                    lines.append((off, ("%s %s\n" % (R.choice(COMS), tg)).encode()))
+                    off += R.randint(2, 60)
+                if R.random() < 0.3: lines.append((off, b"quit\n"))
+            clients.append(dict(kind=kind, accept=it, lines=lines, fd=1000 + nacc))
+            nacc += 1
+        sched.append(dict(now=now, acc=acc))
+    return sched, clients
+
+
+def simulate_sched(seed, N, sickB, conf='mixp'):
+    binary = build()
+    cpath = conf_path(conf)
+    sched, clients = make_schedule(seed, N)
+    g = Gen(seed + 1, dict(faults=0.0, garbage=0.0))      # device A: always well-behaved, own PRNG
+    gB = Gen(seed + 2, dict(faults=0.0, garbage=0.0))
+    RB = random.Random(seed + 3)
+    errpath = os.path.join(tree_dir(), 'udmn.err.%d.%d.%d' % (os.getpid(), seed, int(sickB)))
+    p, dump, c_op = run_c(binary, cpath, None, N, errpath)
+    ops = []; couts = []; xsl = []; stats = collections.Counter()
+    ND = 2; conn = [0] * ND; dfd = [-1] * ND; dto = [False] * ND; pending = [b""] * ND
+    died = False
+    sick_mode = RB.choice(['silent', 'garbage', 'close', 'refuse', 'partial', 'flood']) if sickB else 'healthy'
+    flooded = {}; garb = [0]
+    for it in range(N):
+        if it == 0:
+            op = "I 0 %d 0" % (2 if sick_mode == 'refuse' else 1)
+        else:
+            s = sched[it - 1]
+            parts = []
+            for c in clients:
+                if c['accept'] >= it: continue
+                data = b"".join(b for off, b in c['lines'] if c['accept'] + off == it)
+                rev = 2 | (1 if data else 0)
+                parts.append("%d:%d:0:%s:%d" % (c['fd'], rev, hx(data), 1 << 20))
+            con = 1; soe = 0
+            for di in range(ND):
+                if dfd[di] < 0: continue
+                rev = 0; rk = 0; data = b""
+                if di == 1:          # A: healthy coprocess
+                    if conn[di] == 2:
+                        if pending[di]:
+                            data = pending[di]; pending[di] = b""; rev |= 1
+                        if dto[di]: rev |= 2
+                else:                # B
+                    if conn[di] == 1:
+                        if sick_mode == 'refuse': rev = 2; soe = 1
+                        else: rev = 2
+                    elif conn[di] == 2:
+                        if dto[di]: rev |= 2
+                        if sick_mode == 'healthy':
+                            if pending[di]: data = pending[di]; pending[di] = b""; rev |= 1
+                        elif sick_mode == 'silent': pending[di] = b""
+                        elif sick_mode == 'garbage':
+                            if RB.random() < 0.5 and garb[0] < 700: data = bytes(RB.randrange(1, 128) for _ in range(RB.randint(1, 20))); rev |= 1; garb[0] += len(data)
+                            pending[di] = b""
+                        elif sick_mode == 'partial':
+                            if pending[di]: data = pending[di][:max(1, len(pending[di]) // 2)]; pending[di] = b""; rev |= 1
+                        elif sick_mode == 'flood':
+                            # one burst per connection, below the device buffer's initial size (the model has no cbuf sizing yet)
+                            if flooded.get(dfd[di]) is None: data = b"x" * 800; rev |= 1; flooded[dfd[di]] = True
+                            pending[di] = b""
+                        elif sick_mode == 'close':
+                            if pending[di] or RB.random() < 0.1: rev |= 1; rk = 2; pending[di] = b""
+                if sick_mode == 'refuse' and di == 0: con = 2
+                if (rev & 1) and rk == 0 and not data: rev &= ~1
+                if rev: parts.append("%d:%d:%d:%s:%d" % (dfd[di], rev, rk, hx(data), 1 << 20))
+            op = "P %d %d %d %d" % (s['now'], s['acc'], con, soe) + "".join(" " + x for x in parts)
+        res = c_op(op); ops.append(op)
+        xs = [l for l in res if l.startswith("X ")]; obs = [l for l in res if not l.startswith("X ")]
+        xsl.append(xs); couts.append(obs)
+        if "DIED" in res:
+            died = True; break
+        wfd = {dfd[i]: i for i in range(ND) if dfd[i] >= 0}
+        for l in obs:
+            if l.startswith("O dev ") and l.split()[3] == "conn":
+                t = l.split(); di = int(t[2]); newconn = int(t[4]); dfd[di] = int(t[7])
+                if newconn == 2 and conn[di] != 2: pending[di] = b"hello\n0 vpc> "
+                if newconn != 2:
+                    pending[di] = b""
+                    if di == 0: garb[0] = 0
+                conn[di] = newconn
+            if l.startswith("O dev ") and l.split()[3] == "to": dto[int(l.split()[2])] = (l.split()[4] != "-")
+            if l.startswith("Y write "):
+                t = l.split(); fd = int(t[2]); w = bytes.fromhex(t[3]) if t[3] != "-" else b""
+                if fd >= 2000 and t[4] == "ok" and fd in wfd:
+                    lines = [x for x in w.split(b"\n") if x and x[0] != 255]
+                    if lines: pending[wfd[fd]] += (g if wfd[fd] == 1 else gB).devreply(lines[-1] + b"\n")
+            if l.startswith("Y "): stats['sys ' + l.split()[1]] += 1
+    try: p.stdin.close()
+    except Exception: pass
+    p.wait()
+    err = open(errpath).read(); os.unlink(errpath)
+    return dict(seed=seed, conf=conf, dump=dump, ops=ops, couts=couts, xs=xsl, stats=stats, died=died, stderr=err[-4000:], rc=p.returncode, clients=clients, sick_mode=sick_mode)
